@@ -16,6 +16,7 @@ func init() {
 		Explanation: "Structural necessary conditions of C02: (less) each comparator used to order anchored operations (processor.sortOperations, metadata.sortOperations) is evaluated over every abstract input it can distinguish ({<,=,>} per compared field, {0,1} per boolean feature and element; all weak orderings of three elements) and must be a strict weak order equal to lexicographic (TransactionTime, TransactionNumber); the create comparator must equal 'published before unpublished' and be applied with a stable sort; " +
 			"(sorted.before.group) in applyResolutionOptions both sorts are executed on every path before the concatenation published++unpublished that is the only slice flowing to filtering, splitting and bucketing, and buckets are filled by a forward range over that slice; " +
 			"(first.applicable) applyFirstValidOperation / applyFirstValidCreateOperation return the state of the first element whose application succeeded and return nil only after the range is exhausted (no early exit on a skipped candidate). " +
+			"(prov) the coordinates of the last applied operation that the after-last-full-operation filter uses are stamped from the anchored operation being applied (provenance cells, shared with C03/C04); " +
 			"Not decided: determinism of caller-supplied stores; that operations carry distinct (time, number) pairs (input assumption).",
 		Assumptions: []string{"sort.Slice/SliceStable implement their documented contract for comparators that are strict weak orders"},
 		Run:         runC02,
